@@ -145,7 +145,7 @@ pub fn run_bfs<S: System + 'static>(sys: S, a: &Args) -> ! {
 pub fn run_family<S: System + 'static>(sys: S, a: &Args, hists: Vec<Vec<String>>) -> ! {
     let sys: &'static S = Box::leak(Box::new(sys));
     register(sys, a);
-    let rep = engine::run_histories(sys, &hists, a.num("threads", 16) as usize, a.num("inject", 0) > 0);
+    let rep = engine::run_histories(sys, &hists, a.num("threads", 16) as usize, a.num("inject", 0) > 0, a.num("sparse", 0) > 0);
     finish(rep, a)
 }
 
@@ -273,6 +273,7 @@ fn msys_dispatch(a: &Args, sys: &str, replay: Option<(Vec<String>, String)>) -> 
         ($t:ty) => {{
             let s: MSys<$t> = MSys { n, hint, mode, f, prop, inj_budget: inj, _p: Default::default() };
             match &replay {
+                None if a.cmd == "family" && a.num("sparse", 0) > 0 => run_family(s, a, family::m_histories_queries(&family_sizes(a), sys.starts_with("set"))),
                 None if a.cmd == "family" => run_family(s, a, family::m_histories(&family_sizes(a))),
                 None => run_bfs(s, a),
                 Some((h, sig)) => run_replay(s, a, h, sig),
